@@ -55,4 +55,8 @@ def units(ctx):
         QUnit("events", "Events", traces=(60, 40), thorough_traces=(600, 60), walks=(100, 20), thorough_walks=(1000, 30)),
         QUnit("events", "Promise", traces=(60, 30), thorough_traces=(600, 40), walks=(100, 12), thorough_walks=(1000, 16)),
         QUnit("events", "Notifier", traces=(60, 40), thorough_traces=(600, 60), walks=(100, 20), thorough_walks=(1000, 30)),
+        # free-running goroutines on the real objects (3-4 concurrent triggerers with max trigger counts released by a spinning
+        # barrier; Hook/Unhook/Trigger churn; OnTrigger/unsubscribe/Trigger races; Listener/Notify/Deregister/Wait races);
+        # every recorded execution is validated by TLC against the trace spec
+        TraceUnit("events", "Races", "c15race", args=["-rounds", 4000, "-traces", 40], thorough_args=["-rounds", 60000, "-traces", 600], sut="Races"),
     ]
